@@ -4,7 +4,7 @@
 From Verif Require Import Lib.Base Lib.Json Model.KeyId Model.UAgent Model.Shim Model.ShimSpec Model.ShimCheck
   Model.C07Check Model.C09Check Model.C10Check Generated.ShimGen Proofs.ShimProofs Proofs.ShimFilterProofs
   Proofs.ShimInvProofs Proofs.ShimExactProofs Proofs.ShimC07Proofs Proofs.ShimSpecProofs Proofs.ShimC09Proofs
-  Proofs.ShimC10Proofs.
+  Proofs.ShimC10Proofs Proofs.ShimLocality.
 From Coq Require Import Permutation.
 Set Default Timeout 120.
 Local Arguments sortN : simpl never.
@@ -25,10 +25,15 @@ Section World.
   Variable info : N -> option cinfo.
   Notation Inv := (ShimInvProofs.Inv info).
   Variable script : nat -> option fault.
-  Variable ff : bool.
-  Hypothesis Hff : ff = true -> forall n, script n = None.
+  (** [pend k]: a sound over-approximation of "the script still holds a fault
+      for a request number >= k" *)
+  Variable pend : nat -> bool.
+  Hypothesis Hpend : forall k, pend k = false -> forall n, (k <= n)%nat -> script n = None.
   Hypothesis wf : wf_info info.
   Notation step := (Shim.step info script).
+  Definition nf : nat -> option fault := fun _ => None.
+  Lemma nf_none : forall n, nf n = None.
+  Proof. reflexivity. Qed.
 
   Lemma survive_ok now s o : survive info (obs_of s) (obs_of (fst (step now s o))) now o = true.
   Proof.
@@ -57,21 +62,26 @@ Section World.
     symmetry. apply sortN_perm.
   Qed.
 
-  Lemma healthy_facts s : ff && obs_live (obs_of s) = true -> (forall n, script n = None) /\ live s.
+  (** Once no fault is pending the operation runs as over a healthy agent. *)
+  Lemma healthy_facts s :
+    negb (pend (reqno (ua s))) && obs_live (obs_of s) = true ->
+    (forall now o, step now s o = Shim.step info nf now s o) /\ live s.
   Proof.
-    intro H. apply andb_true_iff in H. destruct H as [H1 H2]. split; [apply Hff; exact H1|apply obs_live_iff; exact H2].
+    intro H. apply andb_true_iff in H. destruct H as [H1 H2]. apply negb_true_iff in H1. split.
+    - intros now o. apply step_ext. intros n Hn. unfold nf. apply (Hpend _ H1 n Hn).
+    - apply obs_live_iff. exact H2.
   Qed.
 
   Lemma oracle_step_ok now s o :
     Inv s ->
     let '(s', r) := step now s o in
-    oracle_step info ff (noup s) (obs_of s) (mkStep now o r (obs_of s')) = true.
+    oracle_step info pend (noup s) (obs_of s) (mkStep now o r (obs_of s')) = true.
   Proof.
     intro HI. pose proof (survive_ok now s o) as Hsv.
     destruct (step now s o) as [s' r] eqn:Hstep. cbn [fst] in Hsv.
     unfold oracle_step. cbn [s_op s_obs s_reply s_now]. rewrite Hsv. cbn [andb].
     change (o_locked (obs_of s)) with (locked s). destruct (locked s) eqn:Hlk; [reflexivity|].
-    pose proof (healthy_facts s) as Hh.
+    pose proof (healthy_facts s) as Hh. change (o_reqno (obs_of s)) with (reqno (ua s)).
     destruct o; try reflexivity.
     - (* List *)
       pose proof (list_any info script now s HI Hlk) as Ha. rewrite Hstep in Ha.
@@ -83,13 +93,13 @@ Section World.
         assert (H2 : forallb (fun b => mem_b b l) (sortN (mem s')) = true).
         { apply forallb_sortN. intros b Hb. apply mem_b_In. apply Ha2. exact Hb. }
         rewrite H1, H2. cbn [andb].
-        destruct (ff && obs_live (obs_of s)) eqn:Hhl; [|reflexivity]. cbn [negb orb].
-        destruct (Hh eq_refl) as [Hnf Hlv].
-        pose proof (list_nf info script Hnf now s Hlv HI Hlk) as H. rewrite Hstep in H.
+        destruct (negb (pend (reqno (ua s))) && obs_live (obs_of s)) eqn:Hhl; [|reflexivity]. cbn [negb orb].
+        destruct (Hh eq_refl) as [Hext Hlv].
+        pose proof (list_nf info nf nf_none now s Hlv HI Hlk) as H. rewrite <- Hext, Hstep in H.
         destruct H as [Hr [_ [Hp [Hm Hi]]]]. injection Hr as ->. apply (listing_clause info now s s' Hp Hm Hi).
-      + destruct (ff && obs_live (obs_of s)) eqn:Hhl; [|reflexivity].
-        destruct (Hh eq_refl) as [Hnf Hlv].
-        pose proof (list_nf info script Hnf now s Hlv HI Hlk) as H. rewrite Hstep in H. destruct H as [H _]. discriminate.
+      + destruct (negb (pend (reqno (ua s))) && obs_live (obs_of s)) eqn:Hhl; [|reflexivity].
+        destruct (Hh eq_refl) as [Hext Hlv].
+        pose proof (list_nf info nf nf_none now s Hlv HI Hlk) as H. rewrite <- Hext, Hstep in H. destruct H as [H _]. discriminate.
     - (* Signers *)
       pose proof (signers_any info script now s HI) as Ha. rewrite Hstep in Ha.
       destruct r as [|l| | |e| |]; try contradiction.
@@ -100,13 +110,13 @@ Section World.
         assert (H2 : forallb (fun b => mem_b b l) (sortN (mem s')) = true).
         { apply forallb_sortN. intros b Hb. apply mem_b_In. apply Ha2. exact Hb. }
         rewrite H1, H2. cbn [andb].
-        destruct (ff && obs_live (obs_of s)) eqn:Hhl; [|reflexivity]. cbn [negb orb].
-        destruct (Hh eq_refl) as [Hnf Hlv].
-        pose proof (signers_nf info script Hnf now s Hlv HI Hlk) as H. rewrite Hstep in H.
+        destruct (negb (pend (reqno (ua s))) && obs_live (obs_of s)) eqn:Hhl; [|reflexivity]. cbn [negb orb].
+        destruct (Hh eq_refl) as [Hext Hlv].
+        pose proof (signers_nf info nf nf_none now s Hlv HI Hlk) as H. rewrite <- Hext, Hstep in H.
         destruct H as [Hr [_ [Hp [Hm Hi]]]]. injection Hr as ->. apply (listing_clause info now s s' Hp Hm Hi).
-      + destruct (ff && obs_live (obs_of s)) eqn:Hhl; [|reflexivity].
-        destruct (Hh eq_refl) as [Hnf Hlv].
-        pose proof (signers_nf info script Hnf now s Hlv HI Hlk) as H. rewrite Hstep in H. destruct H as [H _]. discriminate.
+      + destruct (negb (pend (reqno (ua s))) && obs_live (obs_of s)) eqn:Hhl; [|reflexivity].
+        destruct (Hh eq_refl) as [Hext Hlv].
+        pose proof (signers_nf info nf nf_none now s Hlv HI Hlk) as H. rewrite <- Hext, Hstep in H. destruct H as [H _]. discriminate.
     - (* Sign *)
       pose proof (sign_any info script now s key data flags wf) as Ha. rewrite Hstep in Ha. cbn [snd] in Ha.
       assert (H1 : match r with
@@ -117,9 +127,9 @@ Section World.
       { destruct r; try contradiction; [|reflexivity]. destruct Ha as [-> [-> ->]].
         change (spec_pubkey info key) with (pubkey_of info key). rewrite !N.eqb_refl. reflexivity. }
       rewrite H1. cbn [andb].
-      destruct (ff && obs_live (obs_of s)) eqn:Hhl; [|reflexivity]. cbn [negb orb].
-      destruct (Hh eq_refl) as [Hnf Hlv].
-      pose proof (sign_nf info script Hnf now s key data flags Hlv HI Hlk) as H. cbn zeta in H. rewrite Hstep in H.
+      destruct (negb (pend (reqno (ua s))) && obs_live (obs_of s)) eqn:Hhl; [|reflexivity]. cbn [negb orb].
+      destruct (Hh eq_refl) as [Hext Hlv].
+      pose proof (sign_nf info nf nf_none now s key data flags Hlv HI Hlk) as H. cbn zeta in H. rewrite <- Hext, Hstep in H.
       destruct H as [Hr [_ [Hp [Hm Hi]]]].
       cbn [o_mem obs_of]. rewrite mem_b_sortN, obs_reported_eq. change (spec_pubkey info key) with (pubkey_of info key).
       rewrite (reported_filter info now (ua s) (ua s') Hp Hi). rewrite Hm.
@@ -134,9 +144,9 @@ Section World.
       cbn [o_mem o_ids o_upass obs_of]. rewrite Hm, listN_eqb_refl. cbn [andb].
       destruct r as [| | | |e| |]; try contradiction.
       + apply listN_eqb_of_eq. exact Ha.
-      + destruct (ff && obs_live (obs_of s)) eqn:Hhl; [|reflexivity]. cbn [negb orb].
-        destruct (Hh eq_refl) as [Hnf Hlv].
-        destruct (step_spec info script Hnf now s (Add b) HI) as [Hvs Hr]. rewrite Hstep in Hvs, Hr. cbn [fst snd] in Hvs, Hr.
+      + destruct (negb (pend (reqno (ua s))) && obs_live (obs_of s)) eqn:Hhl; [|reflexivity]. cbn [negb orb].
+        destruct (Hh eq_refl) as [Hext Hlv].
+        destruct (step_spec info nf nf_none now s (Add b) HI) as [Hvs Hr]. rewrite <- Hext, Hstep in Hvs, Hr. cbn [fst snd] in Hvs, Hr.
         cbn [ShimSpec.spec_step] in Hvs, Hr. change (v_locked (vs_of s)) with (locked s) in Hvs, Hr. rewrite Hlk in Hvs, Hr.
         assert (Hv : v_live (vs_of s) = true) by (apply v_live_iff; exact Hlv). rewrite Hv in Hvs, Hr. cbn [andb] in Hvs, Hr.
         change (v_ulocked (vs_of s)) with (ulocked (ua s)) in Hvs, Hr. unfold ulocked in Hvs, Hr.
@@ -152,9 +162,9 @@ Section World.
         * apply mem_b_In in Hc. rewrite Hc. reflexivity.
         * apply mem_b_In in Hc2. rewrite Hc1, Hc2. apply orb_true_r.
       + rewrite Ha, listN_eqb_refl. cbn [andb].
-        destruct (ff && obs_live (obs_of s)) eqn:Hhl; [|reflexivity]. cbn [negb orb].
-        destruct (Hh eq_refl) as [Hnf Hlv].
-        destruct (step_spec info script Hnf now s (AddHardCert key) HI) as [_ Hr]. rewrite Hstep in Hr. cbn [snd] in Hr.
+        destruct (negb (pend (reqno (ua s))) && obs_live (obs_of s)) eqn:Hhl; [|reflexivity]. cbn [negb orb].
+        destruct (Hh eq_refl) as [Hext Hlv].
+        destruct (step_spec info nf nf_none now s (AddHardCert key) HI) as [_ Hr]. rewrite <- Hext, Hstep in Hr. cbn [snd] in Hr.
         cbn [ShimSpec.spec_step] in Hr. change (v_locked (vs_of s)) with (locked s) in Hr. rewrite Hlk in Hr.
         change (v_mem (vs_of s)) with (mem s) in Hr. destruct (mem_b key (mem s)); [discriminate|]. cbn [orb].
         destruct (is_cert info key); cbn [negb andb] in *; [|reflexivity].
@@ -168,13 +178,16 @@ Section World.
       { apply mem_b_false. intro H. apply In_remove_blob in H. destruct H as [_ H]. apply H. reflexivity. }
       destruct r as [| | | |e| |]; try contradiction.
       + rewrite Hnot. cbn [negb andb].
-        destruct (ff && obs_live (obs_of s)) eqn:Hhl; [|reflexivity]. cbn [negb orb].
-        destruct (Hh eq_refl) as [Hnf Hlv].
-        destruct (step_remove_ok info script now s key Hlk) as [_ Hs]. rewrite Hstep in Hs. cbn [fst] in Hs.
-        pose proof (remove_key_nf script Hnf key s Hlv) as H.
-        destruct (remove_key script key s) as [s1 ok]. cbn [fst] in Hs. subst s1.
-        destruct H as [_ [_ [Hids _]]]. apply listN_eqb_of_eq. rewrite Hids. unfold ulocked.
-        destruct (upass (ua s)); reflexivity.
+        destruct (negb (pend (reqno (ua s))) && obs_live (obs_of s)) eqn:Hhl; [|reflexivity]. cbn [negb orb].
+        destruct (Hh eq_refl) as [Hext Hlv].
+        destruct (step_spec info nf nf_none now s (Remove key) HI) as [Hvs _]. rewrite <- Hext, Hstep in Hvs. cbn [fst] in Hvs.
+        cbn [ShimSpec.spec_step] in Hvs. change (v_locked (vs_of s)) with (locked s) in Hvs. rewrite Hlk in Hvs.
+        assert (Hv : v_live (vs_of s) = true) by (apply v_live_iff; exact Hlv). rewrite Hv in Hvs. cbn [andb fst] in Hvs.
+        apply (f_equal v_ids) in Hvs. cbn [v_ids vs_of set_v_ids set_v_mem] in Hvs. apply listN_eqb_of_eq. rewrite Hvs.
+        change (v_ulocked (vs_of s)) with (ulocked (ua s)). unfold ulocked.
+        destruct (upass (ua s)); cbn [negb]; [reflexivity|].
+        destruct (mem_b key (ids (ua s))) eqn:Hin; [reflexivity|].
+        symmetry. apply remove_blob_notin. apply mem_b_false. exact Hin.
       + apply mem_b_false in Ha. rewrite Ha. cbn [negb andb]. rewrite andb_true_r.
         apply listN_eqb_of_eq. f_equal. apply remove_blob_notin. apply mem_b_false. exact Ha.
     - (* RemoveAll *)
@@ -182,9 +195,9 @@ Section World.
       cbn [o_mem o_ids o_upass obs_of]. rewrite Hm. change (sortN []) with (@nil N). cbn [andb].
       destruct r as [| | | |e| |]; try contradiction.
       + rewrite Ha. reflexivity.
-      + destruct (ff && obs_live (obs_of s)) eqn:Hhl; [|reflexivity]. cbn [negb orb].
-        destruct (Hh eq_refl) as [Hnf Hlv].
-        destruct (step_spec info script Hnf now s RemoveAll HI) as [_ Hr]. rewrite Hstep in Hr. cbn [snd] in Hr.
+      + destruct (negb (pend (reqno (ua s))) && obs_live (obs_of s)) eqn:Hhl; [|reflexivity]. cbn [negb orb].
+        destruct (Hh eq_refl) as [Hext Hlv].
+        destruct (step_spec info nf nf_none now s RemoveAll HI) as [_ Hr]. rewrite <- Hext, Hstep in Hr. cbn [snd] in Hr.
         cbn [ShimSpec.spec_step] in Hr. change (v_locked (vs_of s)) with (locked s) in Hr. rewrite Hlk in Hr.
         assert (Hv : v_live (vs_of s) = true) by (apply v_live_iff; exact Hlv). rewrite Hv in Hr. cbn [andb] in Hr.
         change (v_ulocked (vs_of s)) with (ulocked (ua s)) in Hr. unfold ulocked in Hr.
@@ -195,19 +208,19 @@ Section World.
       destruct (max_frame <? len)%N eqn:Hlen.
       + destruct Ha as [[e ->] ->]. cbn [is_err_reply andb]. rewrite listN_eqb_refl, Nat.eqb_refl. reflexivity.
       + destruct r as [| | | |e|x|k]; try contradiction.
-        * destruct (ff && obs_live (obs_of s)) eqn:Hhl; [|reflexivity]. cbn [negb orb].
-          destruct (Hh eq_refl) as [Hnf Hlv].
-          destruct (step_spec info script Hnf now s (Forward raw len rlen) HI) as [_ Hr]. rewrite Hstep in Hr. cbn [snd] in Hr.
+        * destruct (negb (pend (reqno (ua s))) && obs_live (obs_of s)) eqn:Hhl; [|reflexivity]. cbn [negb orb].
+          destruct (Hh eq_refl) as [Hext Hlv].
+          destruct (step_spec info nf nf_none now s (Forward raw len rlen) HI) as [_ Hr]. rewrite <- Hext, Hstep in Hr. cbn [snd] in Hr.
           cbn [ShimSpec.spec_step] in Hr.
           assert (Hv : v_live (vs_of s) = true) by (apply v_live_iff; exact Hlv). rewrite Hv in Hr.
           rewrite Hlen in Hr. cbn [orb negb] in Hr.
           destruct (max_frame <? rlen)%N; [reflexivity|discriminate].
         * destruct Ha as [-> [Hl _]]. rewrite N.eqb_refl, Hl, listN_eqb_refl. reflexivity.
-        * destruct ff; [|reflexivity]. destruct Ha as [n Hn]. exfalso. apply Hn. apply Hff. reflexivity.
+        * destruct (pend (reqno (ua s))) eqn:Hp; [reflexivity|]. exfalso. apply Ha. apply (Hpend _ Hp). apply le_n.
   Qed.
 
   Theorem oracle_model s h :
-    Inv s -> oracle info ff (noup s) (obs_of s) (model_steps info script s h) = true.
+    Inv s -> oracle info pend (noup s) (obs_of s) (model_steps info script s h) = true.
   Proof.
     unfold oracle. revert s. induction h as [|[now o] h IH]; intros s HI; cbn [model_steps all_steps]; [reflexivity|].
     pose proof (oracle_step_ok now s o HI) as H. pose proof (step_inv info script now s o HI) as HI'.
@@ -290,3 +303,15 @@ Section Any.
     - pose proof (remove_all_any info script now s Hlk) as H. destruct (step now s RemoveAll) as [s' r]. cbn [fst]. tauto.
   Qed.
 End Any.
+
+(** The check's [pending] is a sound "no fault from here on" test for the
+    script installed by the harness. *)
+Lemma pending_sound scr k :
+  pending scr k = false -> forall n, (k <= n)%nat -> script_of scr n = None.
+Proof.
+  intros H n Hn. unfold script_of. destruct (find (fun p => Nat.eqb (fst p) n) scr) as [p|] eqn:E; [|reflexivity].
+  apply find_some in E. destruct E as [Hin Hp]. apply Nat.eqb_eq in Hp.
+  assert (Ht : pending scr k = true).
+  { unfold pending. apply existsb_exists. exists p. split; [exact Hin|]. apply Nat.leb_le. rewrite Hp. exact Hn. }
+  congruence.
+Qed.
